@@ -58,6 +58,11 @@ CHECKS.update({
          'Fault-style enumeration per generated schema: all injection positions / all single-field corruptions are enumerated for each generated schema; the schemas themselves are sampled.',
          'Trusts the independent sanity-rule classifier and skeleton-acyclicity test in pbt/checks/c13_lvs_sanity.py; line budget 400k lines per query.', '6/C13'),
 })
+CHECKS.update({
+ 'C14': ('Hypothesis-generated certificate hierarchies (real issuing API, pooled keys) x schema family x one injected deviation per link x validator-instance/packet-order histories on the virtual loop with a simulated certificate server; oracle: reference chain evaluator (strict signed portion, pycryptodome, reference signing relation), order/instance independence, constructor refusal for bad anchors, fetch bound',
+         'Generated histories against a reference chain evaluator; hundreds (quick) to ~10^4 (thorough) histories of 1..6 validations.',
+         'Trusts pbt/refs/lvs_ref.py, the strict Data reader and pycryptodome; an exception out of the validator counts as not accepted; HMAC/Ed25519 links soundness only.', '6/C14'),
+})
 NOT_YET = {}
 def main():
     props = [json.loads(l) for l in open(os.path.join(ROOT, 'properties.jsonl'))]
